@@ -90,6 +90,12 @@ func NewAmount(f float64) (Amount, error) {
 // ToUnit converts a monetary amount counted in bitcoin base units to a
 // floating point value representing an amount of bitcoin.
 func (a Amount) ToUnit(u AmountUnit) float64 {
+	// For units smaller than a satoshi the divisor 10^(u+8) is a negative
+	// power of ten, which float64 cannot represent exactly; dividing by it
+	// rounds twice.  Multiply by the exact positive power instead.
+	if e := int(u + 8); e < 0 {
+		return float64(a) * math.Pow10(-e)
+	}
 	return float64(a) / math.Pow10(int(u+8))
 }
 
